@@ -25,7 +25,18 @@
 #include "common/verif.hpp"
 using namespace hfsm2; using namespace hfsm2::detail;
 struct Rng { float next() { float f = nd_f32(); VASSUME(f >= 0.0f && f < 1.0f); return f; } };
-#if defined VM_PAYLOAD
+#if defined VM_OPTIONS
+// C15/C05: Config option chains. 1 = bottom-up reactions; 2 = the same plus head-room options chained AFTER it; 3 = head-room options chained BEFORE it.
+// Head-room (task capacity, substitution limit) must not change anything a program that stays within the smaller limits can observe.
+#define VM_BOTTOM_UP 1
+#if VM_OPTIONS == 1
+using Cfg = hfsm2::Config::ManualActivation::RandomT<Rng>::BottomUpReactions;
+#elif VM_OPTIONS == 2
+using Cfg = hfsm2::Config::ManualActivation::RandomT<Rng>::BottomUpReactions::TaskCapacityN<16>::SubstitutionLimitN<6>;
+#else
+using Cfg = hfsm2::Config::ManualActivation::TaskCapacityN<16>::SubstitutionLimitN<6>::RandomT<Rng>::BottomUpReactions;
+#endif
+#elif defined VM_PAYLOAD
 using Cfg = hfsm2::Config::ManualActivation::RandomT<Rng>::PayloadT<int32_t>;
 #elif defined HFSM2_ENABLE_UTILITY_THEORY
 using Cfg = hfsm2::Config::ManualActivation::RandomT<Rng>;
